@@ -63,34 +63,101 @@ theorem C01_barrier_from_matching {α : Type} [Field α] [LinearOrder α] [IsStr
     (ε : α) (hε : 0 ≤ ε) (same : δ → δ → Bool)
     (hsame : ∀ d x, same d x = true → |energy d - energy x| < ε) (ts m : δ)
     (h : flag ts = true ∨ energy m ≤ energy ts) (x : δ) (hx : x = m ∨ same m x = true) :
-    flag ts = true ∨ energy x - ε ≤ energy ts := by sorry
+    flag ts = true ∨ energy x - ε ≤ energy ts := by
+  rcases h with h | h
+  · exact Or.inl h
+  · right
+    rcases hx with rfl | hx
+    · linarith
+    · have h1 := (abs_lt.1 (hsame m x hx)).1
+      linarith
 
 /-- one transition-state offer preserves consistency -/
 theorem C01_ts_offer {same : δ → δ → Bool} (hsym : ∀ x y, same x y = same y x)
     {goodMin goodTs : δ → Prop} {barrier : δ → δ → Prop} {s : Ktn δ} (hg : GateInv same s)
     (hc : Consistent goodMin goodTs barrier s) (r : Rec δ) (hr : OkRec same goodMin goodTs barrier r) :
-    Consistent goodMin goodTs barrier (testNewTs same true s r) := by sorry
+    Consistent goodMin goodTs barrier (testNewTs same true s r) := by
+  refine ⟨?_, ?_, ?_⟩
+  · intro a x h
+    rcases testNewTs_nodeData hg r h with h' | rfl | rfl
+    · exact hc.mins a x h'
+    · exact hr.plus
+    · exact hr.minus
+  · intro a b y h
+    rcases testNewTs_edgeData hsym hg r h with ⟨h', _⟩ | ⟨rfl, _⟩
+    · exact hc.tss a b y h'
+    · exact hr.ts
+  · intro a b y h
+    rcases testNewTs_edgeData hsym hg r h with ⟨h', ha, hb⟩ | ⟨rfl, hends⟩
+    · obtain ⟨h1, h2⟩ := hc.bar a b y h'
+      exact ⟨fun x hx => h1 x (ha x hx), fun x hx => h2 x (hb x hx)⟩
+    · have hbar : ∀ x, ((testNewTs same true s r).nodeData? a = some x ∨
+          (testNewTs same true s r).nodeData? b = some x) → barrier r.ts x := by
+        intro x hx
+        rcases hends x hx with hp | hm
+        · exact hr.barPlus x hp
+        · exact hr.barMinus x hm
+      exact ⟨fun x hx => hbar x (Or.inl hx), fun x hx => hbar x (Or.inr hx)⟩
 
 /-- one minimum offer preserves consistency -/
 theorem C01_minimum_offer {same : δ → δ → Bool}
     {goodMin goodTs : δ → Prop} {barrier : δ → δ → Prop} {s : Ktn δ} (hg : GateInv same s)
     (hc : Consistent goodMin goodTs barrier s) (d : δ) (hd : goodMin d) :
-    Consistent goodMin goodTs barrier (testNewMinimum same s d) := by sorry
+    Consistent goodMin goodTs barrier (testNewMinimum same s d) := by
+  have hi := hg.inv
+  have he := testNewMinimum_edges (same := same) hi d
+  refine ⟨?_, ?_, ?_⟩
+  · intro a x h
+    rcases testNewMinimum_nodeData hi d h with h' | rfl
+    · exact hc.mins a x h'
+    · exact hd
+  · intro a b y h
+    rw [edgeData_congr he] at h
+    exact hc.tss a b y h
+  · intro a b y h
+    rw [edgeData_congr he] at h
+    obtain ⟨ha, hb⟩ := edgeData_lt hi h
+    obtain ⟨h1, h2⟩ := hc.bar a b y h
+    rw [testNewMinimum_nodeData_old hi d ha, testNewMinimum_nodeData_old hi d hb]
+    exact ⟨h1, h2⟩
 
 /-- removing any minimum (and with it its transition states) preserves consistency and the gate
     invariant: survivors keep their data and their mutual connections -/
 theorem C01_prune_one (r : Bool) {same : δ → δ → Bool}
     {goodMin goodTs : δ → Prop} {barrier : δ → δ → Prop} {s : Ktn δ} (hg : GateInv same s)
     (hc : Consistent goodMin goodTs barrier s) (k : Nat) (hk : k < s.nMin) :
-    GateInv same (s.removeMin r k) ∧ Consistent goodMin goodTs barrier (s.removeMin r k) := by sorry
+    GateInv same (s.removeMin r k) ∧ Consistent goodMin goodTs barrier (s.removeMin r k) := by
+  have hi := hg.inv
+  refine ⟨gateInv_removeMin r hg k hk, ?_, ?_, ?_⟩
+  · intro a' x h
+    obtain ⟨a, _, _, ha⟩ := removeMin_nodeData r hi k h
+    exact hc.mins a x ha
+  · intro a' b' y h
+    obtain ⟨a, b, _, _, _, _, hab⟩ := removeMin_edgeData r hi k h
+    exact hc.tss a b y hab
+  · intro a' b' y h
+    obtain ⟨a, b, hak, hbk, rfl, rfl, hab⟩ := removeMin_edgeData r hi k h
+    obtain ⟨h1, h2⟩ := hc.bar a b y hab
+    constructor
+    · intro x hx
+      obtain ⟨a2, ha2k, hsh, ha2⟩ := removeMin_nodeData r hi k hx
+      have := shift_inj ha2k hak hsh
+      subst this
+      exact h1 x ha2
+    · intro x hx
+      obtain ⟨b2, hb2k, hsh, hb2⟩ := removeMin_nodeData r hi k hx
+      have := shift_inj hb2k hbk hsh
+      subst this
+      exact h2 x hb2
 
 /-- bulk pruning (`remove_minima` with any list of distinct existing indices, in any order) -/
 theorem C01_prune_preserves (r : Bool) {same : δ → δ → Bool}
     {goodMin goodTs : δ → Prop} {barrier : δ → δ → Prop} {s : Ktn δ} (hg : GateInv same s)
     (hc : Consistent goodMin goodTs barrier s) (ks : List Nat) (hk : ∀ k ∈ ks, k < s.nMin)
     (hn : ks.Nodup) :
-    GateInv same (s.removeMinima r ks) ∧ Consistent goodMin goodTs barrier (s.removeMinima r ks) := by
-  sorry
+    GateInv same (s.removeMinima r ks) ∧ Consistent goodMin goodTs barrier (s.removeMinima r ks) :=
+  removeMinima_preserves r (fun s => GateInv same s ∧ Consistent goodMin goodTs barrier s)
+    (fun _ k hs hk => C01_prune_one r hs.1 hs.2 k hk) s ⟨hg, hc⟩ ks hk hn
 
 /-- every admissible operation preserves the gate invariant and consistency -/
 theorem C01_step {same : δ → δ → Bool} (hsym : ∀ x y, same x y = same y x)
@@ -99,7 +166,42 @@ theorem C01_step {same : δ → δ → Bool} (hsym : ∀ x y, same x y = same y 
     (hc : Consistent goodMin goodTs barrier s) (op : POp δ) (hv : op.valid s = true)
     (hok : OkOp same goodMin goodTs barrier op) :
     GateInv same (pstep same cfg s op) ∧ Consistent goodMin goodTs barrier (pstep same cfg s op) := by
-  sorry
+  cases op with
+  | offer o =>
+    simp only [pstep, hcfg]
+    refine ⟨offer_gateInv hsym hg o, ?_⟩
+    cases o with
+    | minimum d => exact C01_minimum_offer hg hc d hok
+    | ts r => exact C01_ts_offer hsym hg hc r hok
+    | failed => exact hc
+    | merge mins recs hist =>
+      obtain ⟨hmins, hrecs⟩ : (∀ d ∈ mins, goodMin d) ∧
+        ∀ r ∈ recs, OkRec same goodMin goodTs barrier r := hok
+      have h1 := foldl_preserves (fun s => GateInv same s ∧ Consistent goodMin goodTs barrier s)
+        goodMin (testNewMinimum same)
+        (fun s d hs hd => ⟨(testNewMinimum_spec hs.1 d).1, C01_minimum_offer hs.1 hs.2 d hd⟩)
+        mins s ⟨hg, hc⟩ hmins
+      have h2 := foldl_preserves (fun s => GateInv same s ∧ Consistent goodMin goodTs barrier s)
+        (OkRec same goodMin goodTs barrier) (testNewTs same true)
+        (fun s r hs hr => ⟨(testNewTs_spec hsym hs.1 r).1, C01_ts_offer hsym hs.1 hs.2 r hr⟩)
+        recs _ h1 hrecs
+      have hn := addNetworkRecs_nodeData same true s mins recs hist
+      have he := addNetworkRecs_edgeData same true s mins recs hist
+      show Consistent goodMin goodTs barrier (addNetworkRecs same true s mins recs hist)
+      refine ⟨?_, ?_, ?_⟩
+      · intro a x h; rw [hn] at h; exact h2.2.mins a x h
+      · intro a b y h; rw [he] at h; exact h2.2.tss a b y h
+      · intro a b y h; rw [he] at h; rw [hn, hn]; exact h2.2.bar a b y h
+    | reset =>
+      exact ⟨fun a x h => by rw [show offer same true s Offer.reset = s.reset from rfl,
+                nodeData?_reset] at h; exact absurd h (by simp),
+        fun a b y h => by rw [show offer same true s Offer.reset = s.reset from rfl,
+                edgeData?_reset] at h; exact absurd h (by simp),
+        fun a b y h => by rw [show offer same true s Offer.reset = s.reset from rfl,
+                edgeData?_reset] at h; exact absurd h (by simp)⟩
+  | prune ks =>
+    simp only [POp.valid, Bool.and_eq_true, List.all_eq_true, decide_eq_true_eq] at hv
+    exact C01_prune_preserves _ hg hc ks hv.1 hv.2
 
 /-- **C01**: after ANY sequence of pipeline operations — offers of minima from global optimisation
     and reconvergence, successful and failed search records from connection cycles and landscape
@@ -110,13 +212,21 @@ theorem C01_inv {same : δ → δ → Bool} (hsym : ∀ x y, same x y = same y x
     (hcfg : cfg.addTsCountsOnlyNew = true) (ops : List (POp δ))
     (hok : ∀ op ∈ ops, OkOp same goodMin goodTs barrier op) (s : Ktn δ)
     (h : prun same cfg (empty : Ktn δ) ops = some s) :
-    GateInv same s ∧ Consistent goodMin goodTs barrier s := by sorry
+    GateInv same s ∧ Consistent goodMin goodTs barrier s :=
+  prun_preserves same cfg (fun s => GateInv same s ∧ Consistent goodMin goodTs barrier s)
+    (OkOp same goodMin goodTs barrier)
+    (fun _ op hs hv hq => C01_step hsym cfg hcfg hs.1 hs.2 op hv hq) ops empty s
+    ⟨gateInv_empty same,
+      fun a x h => by rw [nodeData?_empty] at h; exact absurd h (by simp),
+      fun a b y h => by rw [edgeData?_empty] at h; exact absurd h (by simp),
+      fun a b y h => by rw [edgeData?_empty] at h; exact absurd h (by simp)⟩ hok h
 
 /-- the same for the store configuration the translator read from the current source -/
 theorem C01_inv_current {same : δ → δ → Bool} (hsym : ∀ x y, same x y = same y x)
     {goodMin goodTs : δ → Prop} {barrier : δ → δ → Prop} (ops : List (POp δ))
     (hok : ∀ op ∈ ops, OkOp same goodMin goodTs barrier op) (s : Ktn δ)
     (h : prun same Gen.Ktn.cfg (empty : Ktn δ) ops = some s) :
-    GateInv same s ∧ Consistent goodMin goodTs barrier s := by sorry
+    GateInv same s ∧ Consistent goodMin goodTs barrier s :=
+  C01_inv hsym Gen.Ktn.cfg (by decide) ops hok s h
 
 end TopSearch.Props.C01
